@@ -155,6 +155,7 @@ class Projector:
         exp = {
             "files": False, "mayChange": [], "mustChange": [],
             "sites": False, "siteMay": {}, "siteMust": {}, "exit": -1,
+            "sel": False, "queues": [],
         }
         ein = self.expect_in
         if "mayChange" in ein:
@@ -165,6 +166,9 @@ class Projector:
             exp["sites"] = True
             exp["siteMay"] = {self.tok(r): list(v) for r, v in ein["siteMay"].items()}
             exp["siteMust"] = {self.tok(r): list(v) for r, v in ein.get("siteMust", {}).items()}
+        if "queues" in ein:
+            exp["sel"] = True
+            exp["queues"] = [list(q) for q in ein["queues"]]
         if "exit" in ein:
             exp["exit"] = int(ein["exit"])
 
@@ -317,7 +321,7 @@ class Projector:
             for p in r.get("failedFiles", []) or []:
                 failed.append(self.tok(self._rel_of_abs(p, rep)))
             results.append({"c": r["codemod"], "changed": changed, "failed": failed})
-            if not r.get("summary") or not r.get("description") or r.get("references") is None:
+            if not r.get("codemod") or not r.get("summary") or r.get("description") is None or r.get("references") is None:
                 shape_ok = False
                 why.append(f"{r['codemod']}: missing summary/description/references")
             for cs in r.get("changeset", []):
